@@ -25,6 +25,7 @@ type Config struct {
 	BufPages       int
 	NoSync         bool
 	CompactionSync bool
+	SyncAfterBytes int // CompactionSyncAfterBytes: 0 = default, < 0 = no periodic syncs, > 0 = every so many bytes
 	IndexMax       int
 	IndexMin       int
 	MaxDirtyOps    uint64
@@ -234,6 +235,7 @@ func (h *H) storeOptions() (moss.StoreOptions, moss.StorePersistOptions) {
 		CompactionLevelMultiplier:   h.cfg.LevelMult,
 		CompactionBufferPages:       h.cfg.BufPages,
 		CompactionSync:              h.cfg.CompactionSync,
+		CompactionSyncAfterBytes:    h.cfg.SyncAfterBytes,
 		SegmentKeysIndexMaxBytes:    h.cfg.IndexMax,
 		SegmentKeysIndexMinKeyBytes: h.cfg.IndexMin,
 		KeepFiles:                   h.cfg.KeepFiles,
